@@ -522,8 +522,24 @@ class Program:
                 self.step(-1, "sweep." + name, (o,), thunk)
         self.compare_all(full=True)
 
+    def first_seeds(self):
+        """before anything else has been printed in this process: points
+        with 1, 3 and 4 extra year digits (in growing order), each with a
+        format of its own that spells them (+X)"""
+        repo = self.repo
+        for nd in (1, 3, 4, 1, 3):
+            self.add(repo.TimePoint(
+                year=2000 + nd, month_of_year=3, day_of_month=1,
+                hour_of_day=6, minute_of_hour=30, second_of_minute=15,
+                time_zone_hour=0, time_zone_minute=0,
+                num_expanded_year_digits=nd,
+                dump_format="+XCCYY-MM-DDThh:mm:ssZ"))
+        self.ctx.current_step = (-1, "first-seeds")
+        self.compare_all(full=True)
+
     def run(self):
         ctx = self.ctx
+        self.first_seeds()
         self.seed_pool()
         self.rare_seeds()
         self.unary_sweep()
